@@ -41,6 +41,9 @@ def gen_cases(tier, seed):
     rng = random.Random(f"c16-{seed}")
     n = 40 if tier == "quick" else 1500
     cases = [{"mode": "twice", "seed": rng.getrandbits(40), "reserve2": i % 3 == 0} for i in range(n)]
+    # several compilations inside ONE interpreter (API): A, B, A again - outputs of A must not depend on what was compiled before
+    for i in range(6 if tier == "quick" else 150):
+        cases.append({"mode": "same_process", "seed": rng.getrandbits(40), "seed_b": rng.getrandbits(40)})
     cases.append({"mode": "core", "seed": 0})
     return cases
 
@@ -80,6 +83,8 @@ def run_case(case, tier):
     try:
         if case["mode"] == "core":
             return run_core(case, res, work)
+        if case["mode"] == "same_process":
+            return run_same_process(case, res, work)
         rng = random.Random(case["seed"])
         prog = G.gen_program(case["seed"], allow_known=False, shape=("siblings" if case["reserve2"] else None))
         if case["reserve2"]:
@@ -177,4 +182,40 @@ def run_core(case, res, work):
                 break
     C["core_defs_bytes_identical"] = int(regen.read_bytes() == Path(REPO + "/src/pyrtma/core_defs.py").read_bytes())
     res["sample"] = {"core_defs_classes": len(a["classes"]), "bytes_identical": bool(C["core_defs_bytes_identical"])}
+    return res
+
+
+def run_same_process(case, res, work):
+    import json as _json
+    V, C = res["violations"], res["counters"]
+    A = G.gen_program(case["seed"], allow_known=False, shape="siblings")
+    B = G.gen_program(case["seed_b"], allow_known=False, tag="B")
+    res["sig"] = sig_of([A["files"], B["files"]])
+    res["nontrivial"] = True
+    ra = G.write_closure(A, work / "A" / "src")
+    rb = G.write_closure(B, work / "B" / "src")
+    for d in ("o1", "o2", "o3", "cli"):
+        (work / d).mkdir(parents=True)
+    kw = "python=True, javascript=True, matlab=True, c_lang=True, combined=True, info=False"
+    code = ("import os\nfrom pyrtma.compile import compile\n"
+            f"compile([{str(ra)!r}], {str(work / 'o1')!r}, 'out', {kw})\n"
+            f"os.chdir({str(work)!r})\ncompile([{str(rb)!r}], {str(work / 'o2')!r}, 'out', {kw})\n"
+            f"os.chdir('/')\ncompile([{str(ra)!r}], {str(work / 'o3')!r}, 'out', {kw})\n")
+    r = L.run(["/venv/bin/python", "-c", code])
+    if r.returncode != 0:
+        V.append({"mech": "compile_failed:same_process", "detail": (r.stdout + r.stderr)[-400:]})
+        return res
+    rc, txt = L.compile_closure(ra, work / "cli", name="out", langs=("py", "c", "js", "mat", "combined"), cli=True, hashseed="7")
+    if rc != 0:
+        V.append({"mech": "compile_failed:cli", "detail": txt[-300:]})
+        return res
+    C["same_process_runs"] = 1
+    for f in ("out.py", "out.h", "out.js", "out.m", "out_combined.yaml"):
+        a1, a3, ac = (work / "o1" / f).read_bytes(), (work / "o3" / f).read_bytes(), (work / "cli" / f).read_bytes()
+        C["output_files_compared"] = C.get("output_files_compared", 0) + 2
+        if a1 != a3:
+            V.append({"mech": f"output_depends_on_earlier_compilations:{f.split('.')[-1]}", "detail": f"{f}: first and third compilation of the same closure in one interpreter differ "
+                                                                                             f"({len(a1)} vs {len(a3)} bytes) after another closure was compiled in between"})
+        elif a1 != ac:
+            V.append({"mech": f"outputs_differ_between_runs:{f.split('.')[-1]}", "detail": f"{f}: API (in-process) vs CLI (fresh process) differ"})
     return res
